@@ -9,11 +9,13 @@ From VM Require Import Prelude.MachInt Prelude.Outcome Impl.MmapBuild Impl.Xen S
 (* the implementation model satisfies the executable spec checker on EVERY well-formed request of the
    standard build: any constructor kind, size, prot, flags, file length and offset, pointer, guest
    base, power-of-two page size, and either answer of the kernel to the mmap (probe 0 / 1; probe 2 =
-   "not probed" only where the harness does not probe: external pointer or explicit MAP_FIXED) *)
+   "not probed" only where the harness does not probe: external pointer or explicit MAP_FIXED), and any
+   hugetlbfs hint given to the builder (not given / false / true; the other constructors cannot carry one) *)
 Theorem C15_model_ok : forall c probe k,
   kind_ok (c_kind c) (match c_file c with Some _ => true | None => false end)
           (match c_raw c with Some _ => true | None => false end)
           (match c_base c with Some _ => true | None => false end) = true ->
+  huge_ok (c_kind c) (c_huge c) = true ->
   c_page c = 2 ^ k ->
   (probe = 0 \/ probe = 1 \/
    (probe = 2 /\ (c_raw c <> None \/ (explicit_flags c = true /\ hasbit (c_flags c) 16 = true)))) ->
@@ -47,11 +49,13 @@ Proof. exact C15x_model_ok_lemma. Qed.
 
 (* build_ok_iff: MmapRegionBuilder::build accepts EXACTLY the safe requests (and then returns the
    requested region): an external pointer iff it is page aligned; otherwise iff MAP_FIXED (bit 4) is
-   clear, the file range neither overflows nor extends past EOF, and the kernel grants the mmap *)
+   clear, the file range neither overflows nor extends past EOF, and the kernel grants the mmap - the
+   hugetlbfs hint of the request (q_huge, any value) does not occur in the condition and is handed on *)
 Theorem C15_build_ok_iff : forall m o q k, os_page o = 2 ^ k ->
   (exists l, build m o q =
      Val (Ok {| g_addr := q_raw q; g_size := q_size q; g_prot := q_prot q; g_flags := q_flags q;
-                g_file := q_file q; g_owned := match q_raw q with None => true | Some _ => false end |}, l))
+                g_file := q_file q; g_owned := match q_raw q with None => true | Some _ => false end;
+                g_huge := q_huge q |}, l))
   <->
   match q_raw q with
   | Some addr => addr mod os_page o = 0
@@ -65,12 +69,13 @@ Theorem C15_build_ok_iff : forall m o q k, os_page o = 2 ^ k ->
 Proof. exact build_ok_iff_lemma. Qed.
 
 (* reports_request: whatever build returns as Ok reports exactly the requested size, protection,
-   flags, file and offset, owns the mapping iff it made it, and the last OS call is the mmap of
+   flags, file and offset and the hugetlbfs label it was given, owns the mapping iff it made it, and the last OS call is the mmap of
    exactly (size, prot, flags, file, offset) - so that, by the kernel's MAP_SHARED contract, byte i
    of a shared file-backed region is byte offset+i of the file *)
 Theorem C15_reports_request : forall m o q g l, build m o q = Val (Ok g, l) ->
   g_size g = q_size q /\ g_prot g = q_prot q /\ g_flags g = q_flags q /\ g_file g = q_file q /\
   g_addr g = q_raw q /\ g_owned g = (match q_raw q with None => true | Some _ => false end) /\
+  g_huge g = q_huge q /\
   match q_raw q with
   | Some _ => l = []
   | None => exists l1, mm_balance l1 = 0%Z /\
@@ -79,6 +84,25 @@ Theorem C15_reports_request : forall m o q g l, build m o q = Val (Ok g, l) ->
                         (match q_file q with Some s => s | None => 0 end) true]
   end.
 Proof. exact reports_request_full_lemma. Qed.
+
+(* the hugetlbfs hint never decides: the same request with ANY other hint (none / false / true) fails with
+   the same error and the same OS calls, or succeeds with the same OS calls and the same region up to the
+   label, or panics at the same site - in particular check_file_offset is run whatever the hint says *)
+Theorem C15_hint_never_decides : forall m o q h,
+  (forall e l, build m o q = Val (Err e, l) <-> build m o (with_huge q h) = Val (Err e, l)) /\
+  (forall g l, build m o q = Val (Ok g, l) -> build m o (with_huge q h) = Val (Ok (region_with_huge g h), l)) /\
+  (forall g' l, build m o (with_huge q h) = Val (Ok g', l) ->
+                exists g, build m o q = Val (Ok g, l) /\ g' = region_with_huge g h) /\
+  (forall s, build m o q = Panic s <-> build m o (with_huge q h) = Panic s).
+Proof. exact hint_never_decides_lemma. Qed.
+
+(* ... so a file range that extends past the end of the file, or overflows, is refused under every hint *)
+Theorem C15_hint_past_eof_refused : forall m o q start h, q_raw q = None -> q_file q = Some start ->
+  N.testbit (q_flags q) 4 = false -> q_huge q = h ->
+  (start + q_size q < W64 -> os_filesize o < start + q_size q ->
+     exists l, build m o q = Val (Err MappingPastEof, l)) /\
+  (W64 <= start + q_size q -> exists l, build m o q = Val (Err InvalidOffsetLength, l)).
+Proof. exact hint_past_eof_refused_lemma. Qed.
 
 (* fail_maps_nothing: a failed construction leaves nothing mapped (successful mmaps and munmaps in
    the effect log balance), for the builder and for GuestRegionMmap::from_range - where the region
@@ -159,9 +183,12 @@ Proof. exact xen_grant_leak_witness_lemma. Qed.
    refused, a misaligned external pointer is refused, an aligned one accepted *)
 Example C15_nonvacuous :
   let o := {| os_page := 4096; os_filesize := 8192; os_mmap_ok := true; os_ioctl_ok := true |} in
-  let q s f r := {| q_size := s; q_prot := 3; q_flags := f; q_file := Some 4096; q_raw := r |} in
+  let qh s f r h := {| q_size := s; q_prot := 3; q_flags := f; q_file := Some 4096; q_raw := r; q_huge := h |} in
+  let q s f r := qh s f r None in
   (exists g l, build Debug o (q 4096 1 None) = Val (Ok g, l) /\ g_owned g = true) /\
   (exists l, build Debug o (q 4097 1 None) = Val (Err MappingPastEof, l)) /\
+  (exists l, build Debug o (qh 4097 1 None (Some true)) = Val (Err MappingPastEof, l)) /\
+  (exists g l, build Debug o (qh 4096 1 None (Some true)) = Val (Ok g, l) /\ g_huge g = Some true) /\
   build Debug o (q 4096 17 None) = Val (Err MapFixed, []) /\
   build Debug o (q 4096 1 (Some 4097)) = Val (Err InvalidPointer, []) /\
   (exists g, build Debug o (q 4096 1 (Some 8192)) = Val (Ok g, []) /\ g_owned g = false).
@@ -171,6 +198,8 @@ Print Assumptions C15_model_ok.
 Print Assumptions C15x_model_ok.
 Print Assumptions C15_build_ok_iff.
 Print Assumptions C15_reports_request.
+Print Assumptions C15_hint_never_decides.
+Print Assumptions C15_hint_past_eof_refused.
 Print Assumptions C15_fail_maps_nothing.
 Print Assumptions C15_constructors_decision.
 Print Assumptions C15_guest_region_new_iff.
